@@ -55,6 +55,11 @@ def gen_cases(tier, seed):
             if fam in NLDF:
                 c["plan_type"] = str(rng.choice(["gaussian", "spline"]))
                 c["interp"] = str(rng.choice(["onsite_direct", "onsite_spline"]))
+            elif "sdmx" in fam and (rep % 2 == (0 if fam == "sdmx" else 1)):
+                # generally contracted shells with l >= 1 (ANO: several radial functions share one set of primitives): the
+                # SDMX contraction routines index (contraction, m) pairs inside a shell - added after a seeded change of
+                # that indexing that is consistent between forward and backward pass and only shows under rotations
+                c["basis"] = "roos-dz"
             octs = [int(oct_order[(3 * i + k) % 48]) for k in range(3)]
             cases.append({"id": "m%03d-%s-%s" % (i, fam, spin), "cfg": c, "octs": octs, "seed": seed, "idx": 100 + i,
                           "_threads": 2, "_weight": 5.0 if fam in NLDF else 1.5, "_timeout": 2400})
